@@ -14,7 +14,8 @@
   The theorems of the first sections treat patterns of depth 1 with names as targets.  The last section
   (`## nested patterns`) is the general theorem over *arbitrarily nested* pure declaration patterns
   (`C13N.Pat`, Lemmas/C13NestedDefs.lean: names and `_`, list patterns with an optional collecting last item
-  — itself a pattern —, object patterns of shorthand names, literal-key pairs `"k": p` and `..rest`):
+  — itself a pattern —, object patterns of shorthand names (`_` discards), literal-key pairs `"k": p` (any key,
+  `"_"` included, is looked up) and `..rest`):
       theorem bind_nested : for fuel ≥ p.size, `bindNext … p.toExpr v none true` into the scope cell `a` is ok ↔
         `proj p σ v` is defined (shape) ∧ the leaf names are new and pairwise distinct (`FreshBs`), and then the
         state is `σ` + one fresh cell per `..rest` (`drop n` / the filtered map) with exactly the leaves of
@@ -685,9 +686,30 @@ example : pmatch (.list (.cons (.var c!"a" (1, 2)) (.cons (.list (.cons (.var c!
 example : (∀ b, (SVal.plain (.int 3)).v ≠ .list b) ∧ PatList.size (.cons (.var c!"a" (1, 2)) .nil) + 1 ≤ 4 :=
   ⟨fun _ h => (by cases h), by decide⟩
 
-/-- the key `_` is a wildcard in object patterns as well: `{"_": x} := {"_": 1}` binds nothing (`x` stays undeclared) -/
+/-- in a pair the key `_` is an ordinary key: `{"_": x} := {"_": 1}` looks it up and binds `x` to `1` … -/
 example : proj (.obj (.pair c!"_" (1, 2) (.var c!"x" (1, 7)) .nil) (1, 1))
       ⟨#[.scope [], .obj [(c!"_", SVal.plain (.int 1))]], []⟩ (SVal.plain (.obj 1)) =
-    some ([], ⟨#[.scope [], .obj [(c!"_", SVal.plain (.int 1))]], []⟩) := by rfl
+    some ([(c!"x", SVal.plain (.int 1), (1, 7))], ⟨#[.scope [], .obj [(c!"_", SVal.plain (.int 1))]], []⟩) := by rfl
+
+/-- … the engine itself on that pattern … -/
+example : bindNext 5 ⟨#[.scope [], .obj [(c!"_", SVal.plain (.int 1))]], []⟩ [0] []
+      (Pat.obj (.pair c!"_" (1, 2) (.var c!"x" (1, 7)) .nil) (1, 1)).toExpr (SVal.plain (.obj 1)) none true =
+    .ok [c!"x"] ⟨#[.scope [(c!"x", SVal.plain (.int 1), (1, 7))], .obj [(c!"_", SVal.plain (.int 1))]], []⟩ := by
+  with_unfolding_all rfl
+
+/-- … and a missing key `_` is `PropNotFound` at the key, like any other key -/
+example : pmatch (.obj (.pair c!"_" (1, 2) (.var c!"x" (1, 7)) .nil) (1, 1)) [] []
+      ⟨#[.scope [], .obj [(c!"a", SVal.plain (.int 1))]], []⟩ (SVal.plain (.obj 1)) =
+    .err (1, 2) (Leaf.PropNotFound c!"_") [] ⟨#[.scope [], .obj [(c!"a", SVal.plain (.int 1))]], []⟩ := by rfl
+
+/-- only the shorthand `{_}` discards: nothing is looked up (the source need not have the key), nothing is bound;
+    the key `_` is nevertheless taken out of what `..r` collects: `{_, ..r} := {"_": 1, "a": 2}` gives `r = {"a": 2}` -/
+example : proj (.obj (.short c!"_" (1, 2) .nil) (1, 1)) ⟨#[.scope [], .obj [(c!"a", SVal.plain (.int 1))]], []⟩
+      (SVal.plain (.obj 1)) = some ([], ⟨#[.scope [], .obj [(c!"a", SVal.plain (.int 1))]], []⟩) ∧
+    proj (.obj (.short c!"_" (1, 2) (.rest c!"r" (1, 7) .nil)) (1, 1))
+      ⟨#[.scope [], .obj [(c!"_", SVal.plain (.int 1)), (c!"a", SVal.plain (.int 2))]], []⟩ (SVal.plain (.obj 1)) =
+    some ([(c!"r", SVal.plain (.obj 2), (1, 7))],
+      ⟨#[.scope [], .obj [(c!"_", SVal.plain (.int 1)), (c!"a", SVal.plain (.int 2))], .obj [(c!"a", SVal.plain (.int 2))]], []⟩) :=
+  ⟨by rfl, by rfl⟩
 
 end Seed.C13
